@@ -1337,7 +1337,11 @@ class Emitter:
                     ct = self.ctype(tt)
                     return ['*(%s*)%s = *(%s*)%s;' % (ct, A[0], ct, A[1])]
             fn = 'vf_memcpy' if name.startswith('llvm.memcpy.') else 'vf_memmove'
-            if args[2][1][0] == 'int': fn = fn[3:]   # constant length: CBMC's built-in is exact and cheap
+            if args[2][1][0] == 'int':
+                if BYTE_COPY_LOOPS and name.startswith('llvm.memcpy.') and 0 < args[2][1][1] <= 64:
+                    # constant-length byte copy, unrolled: symex then propagates constant bytes (string literals into std::string storage)
+                    return ['{ uint8_t* d_ = (uint8_t*)%s; const uint8_t* s_ = (const uint8_t*)%s; %s }' % (A[0], A[1], ' '.join('d_[%d] = s_[%d];' % (k_, k_) for k_ in range(args[2][1][1])))]
+                fn = fn[3:]   # constant length: CBMC's built-in is exact and cheap
             else:
                 # dynamic length: copy element-wise in the element type the pointers were cast from
                 # (typed assignments stay field-sensitive in CBMC; the loop is bounded by --unwind)
@@ -1680,6 +1684,7 @@ def main():
     while em.deferred:
         em.need_struct(em.deferred.pop())
     with open(a.output, 'w') as fo:
+        if BYTE_COPY_LOOPS: fo.write('#define VF_BYTE_COPY_LOOPS 1\n')
         fo.write(PRELUDE)
         fo.write('\n/* types */\n')
         fo.write('\n'.join(t for t in em.typedefs if t))
